@@ -379,6 +379,22 @@ pub fn read_routes(ctx: &mut Ctx, prop_rt: &str, ty: i32, shp: &[u8], shx: Optio
             }
             ctx.stats.absorb_world(&world6.borrow());
         }
+        // Iterator::last(): the last shape, having consumed all
+        if n >= 1 {
+            let world7 = mk();
+            if let Open::Ok(mut r7) = open(&world7, with_index, rstack) {
+                match guarded(|| r7.iter_shapes().last().map(|x| x.map(|s| capture(&s)).map_err(|e| classify(&e)))) {
+                    Ok(Some(Ok(g))) => {
+                        if let Some(d) = diff_read(&expected[n - 1], &g, n - 1, &area) {
+                            ctx.fail(prop_rt, "same-shape", format!("last/{}", tag), format!("iter_shapes().last() is not shape {}: {}", n - 1, d));
+                        }
+                    }
+                    Ok(other) => ctx.fail(prop_rt, "no-error", format!("last/{}", tag), format!("iter_shapes().last() over {} shapes = {:?}", n, other.map(|x| item_short(&x)))),
+                    Err(p) => ctx.fail(prop_rt, "panic", p.site(), format!("last/{}: {}", tag, p.text())),
+                }
+            }
+            ctx.stats.absorb_world(&world7.borrow());
+        }
         if with_index {
             // C04 behaviour on a fresh reader: count, random access, size hints
             let world5 = mk();
@@ -443,6 +459,19 @@ pub fn read_routes(ctx: &mut Ctx, prop_rt: &str, ty: i32, shp: &[u8], shx: Optio
 
 /// C06, value level and type matrix, on a well-formed file of type `ty` with `n` records.
 pub fn check_c06(ctx: &mut Ctx, ty: i32, shp: &[u8], n: usize, rstack: StackCfg, rplan: &Plan) {
+    check_c06_on(ctx, ty, shp, n, rstack, rplan);
+    // the same records under a header that names another type (a quarter of the files, chosen by
+    // content): what a typed read returns, and the types its errors name, are about the records
+    if n > 0 && shp.len() >= 100 && crate::prng::fnv(shp) % 4 == 0 {
+        let other = TYPES[(TYPES.iter().position(|t| *t == ty).unwrap_or(0) + 3) % TYPES.len()];
+        let mut m = shp.to_vec();
+        m[32..36].copy_from_slice(&other.to_le_bytes());
+        ctx.stats.reach("c06-header-names-another-type");
+        check_c06_on(ctx, ty, &m, n, rstack, rplan);
+    }
+}
+
+fn check_c06_on(ctx: &mut Ctx, ty: i32, shp: &[u8], n: usize, rstack: StackCfg, rplan: &Plan) {
     // typed and generic routes read through the same (must-be-masked) transfer schedule
     let mk = || World::with_data(rplan.clone(), shp.to_vec(), vec![], vec![]);
     // generic read
